@@ -37,6 +37,7 @@ RULE = (
     "virtual time crossing a save boundary; distinct = distinct case JSON."
     " Round 5: the body may raise any class of the library's exception hierarchy or common built-ins (`body_exc`); a `bystander` gateway in the same loop must keep saving on schedule and leave nothing behind."
     ' Round 6: `new_loop` - after the first session the same gateway object runs a full session under a second event loop.'
+    ' Round 7: fault `disconnect-hang` (the leaving task is cancelled while disconnect hangs).'
 )
 ASSUMPTIONS = [
     "threads are replaced by an inline executor: outcomes are the same at file-operation granularity, thread races inside aiofiles are not explored",
@@ -45,7 +46,7 @@ ASSUMPTIONS = [
 DELETABLE = ()
 
 KINDS = ("plain", "plain-nosuspend", "stream", "mqtt")
-FAULTS = ("none", "connect", "body", "disconnect", "body+disconnect", "connect-timeout", "cancel-body", "disconnect-hang")
+FAULTS = ("none", "connect", "body", "disconnect", "body+disconnect", "connect-timeout", "cancel-body", "disconnect-hang", "connect-once")
 FILES = ("missing", "empty", "registry", "big")
 BIG_REGISTRY = {str(i): {"node_id": i, "node_type": 17, "protocol_version": "2.0", "sketch_name": f"node {i}", "sketch_version": "1", "battery_level": i % 100, "heartbeat": 0, "sleeping": False, "children": {"1": {"child_id": 1, "child_type": 6, "description": "", "values": {"0": str(i)}}}} for i in range(1, 61)}
 FILE_REGISTRY = {"3": {"node_id": 3, "node_type": 17, "protocol_version": "2.2.0", "sketch_name": "from file", "sketch_version": "1", "battery_level": 50,
@@ -77,11 +78,15 @@ def enumerate_cases(tier: str):
                 continue
             if kind == "plain-nosuspend" and fault == "connect-timeout":
                 continue
+            if kind == "mqtt" and fault == "connect-once":
+                continue
             for k, T in ((0, None), (9, None), (2, 901)):
                 yield {"kind": kind, "fault": fault, "file": "registry", "k": k, "T": T, "mutate": True, "bystander": True}
     for kind, fault, initial in itertools.product(KINDS, FAULTS, FILES):
         if kind == "plain-nosuspend" and fault in ("connect-timeout", "disconnect-hang"):
             continue
+        if fault == "connect-once" and (initial == "big" or kind == "mqtt"):
+            continue  # (MQTTClient refuses a second connect after a refused one with RuntimeError: outside the listed properties, see DESIGN 8.2)
         if initial == "big" and (fault not in ("none", "cancel-body") or kind not in ("plain", "stream")):
             continue
         if not kind.startswith("plain") and ("disconnect" in fault or fault == "connect-timeout"):
@@ -121,7 +126,7 @@ def strategy(tier: str):
             "bystander": st.sampled_from((False, False, True)),
             "new_loop": st.sampled_from((False, False, True)),
         }
-    ).filter(lambda c: c["kind"] == "plain" or (c["kind"] == "plain-nosuspend" and c["fault"] not in ("connect-timeout", "disconnect-hang")) or ("disconnect" not in c["fault"] and c["fault"] != "connect-timeout"))
+    ).filter(lambda c: not (c["kind"] == "mqtt" and c["fault"] == "connect-once")).filter(lambda c: c["kind"] == "plain" or (c["kind"] == "plain-nosuspend" and c["fault"] not in ("connect-timeout", "disconnect-hang")) or ("disconnect" not in c["fault"] and c["fault"] != "connect-timeout"))
 
 
 class BodyError(Exception):
@@ -167,12 +172,13 @@ class PlainTransport(env.RecordingTransport):
         super().__init__()
         self.fault = fault
         self.suspends = suspends
+        self.hanging = asyncio.Event()
 
     async def connect(self) -> None:
         self.connected += 1
         if self.suspends:
             await asyncio.sleep(0)
-        if self.fault == "connect":
+        if self.fault == "connect" or (self.fault == "connect-once" and self.connected == 1):
             raise TransportError("injected connect fault")
         if self.fault == "connect-timeout":
             await asyncio.Event().wait()  # hangs until the caller gives up
@@ -182,6 +188,7 @@ class PlainTransport(env.RecordingTransport):
         if self.suspends:
             await asyncio.sleep(0)
         if self.fault == "disconnect-hang":
+            self.hanging.set()
             await asyncio.Event().wait()  # the link is stuck: only a cancellation of the leaving task ends this
         if "disconnect" in self.fault:
             raise TransportFailedError("injected disconnect fault")
@@ -196,7 +203,7 @@ class StreamKind(c03.MemoryStreamTransport):
 
     async def _open_connection(self):
         self.connected += 1
-        if self.fault == "connect":
+        if self.fault == "connect" or (self.fault == "connect-once" and self.connected == 1):
             raise ConnectionRefusedError("injected connect fault")
         pair = await super()._open_connection()  # a fresh connection per session
         self._mems = getattr(self, "_mems", []) + [self.mem]
@@ -321,11 +328,37 @@ def run_case(case: dict) -> Outcome:
             return fail("bystander:task-left", f"tasks left after both gateways left their contexts: {left!r}")
         return None
 
-    async def main_a() -> Outcome | None:
+    async def main_a(fault: str = fault) -> Outcome | None:
         loop = asyncio.get_running_loop()
         transport = _make_transport(kind, fault)
         gateway = Gateway(transport, Config(persistence_file=path))
         shared["gateway"], shared["transport"] = gateway, transport
+        if fault == "disconnect-hang":
+            # leaving the context (however the body ends) will hang in disconnect; the application gives up 5 s later and cancels the task
+            leaving = asyncio.current_task()
+
+            async def give_up() -> None:
+                await transport.hanging.wait()
+                await asyncio.sleep(5)
+                leaving.cancel()
+
+            ignore_tasks.add(asyncio.ensure_future(give_up()))
+        if fault == "connect-once":
+            # the first attempt to enter the context fails in connect; the application retries on the same gateway object and
+            # from then on everything is demanded as in a fault-free session
+            try:
+                async with gateway:
+                    return fail("connect-once:no-error", "the first connect failed but the context was entered")
+            except TransportError:
+                pass
+            except BaseException as err:  # noqa: BLE001
+                return fail(f"connect-fail:raised-{type(err).__name__}", f"kind={kind}: failing connect surfaced as {err!r}")
+            for _ in range(3):
+                await asyncio.sleep(0)
+            left = [t for t in asyncio.all_tasks() if t is not asyncio.current_task() and not t.done() and t not in ignore_tasks]
+            if left:
+                return fail("connect-fail:task-left", f"kind={kind}: tasks left behind after the failed connect: {left!r}")
+            fault = "none"
         if case.get("prefill"):
             gateway.nodes[21] = Node(21, 17, "2.0")  # known to the application before the context is entered
         me = asyncio.current_task()
@@ -385,9 +418,6 @@ def run_case(case: dict) -> Outcome:
                     # the first save may or may not have run yet: busy unless the file already holds a complete document
                     info["saver_busy_at_exit"] = state != "ok" or k < 8
                 at_exit_doc = registry_doc(gateway)
-                if fault == "disconnect-hang":
-                    # leaving the context will hang in disconnect; the application gives up after 5 s and cancels the task
-                    loop.call_later(5, me.cancel)
                 if fault == "cancel-body":
                     # the application task is cancelled for real (task.cancel(), asyncio.timeout, Ctrl-C under asyncio.run)
                     me.cancel()
